@@ -134,20 +134,11 @@ def _quick_match(pattern: str, value: str) -> Optional[bool]:
     key = (pattern, value)
     if key in _MATCH_CACHE:
         return _MATCH_CACHE[key]
-    import signal
-
-    def on_alarm(signum: int, frame: Any) -> None:
-        raise TimeoutError()
-
-    old = signal.signal(signal.SIGALRM, on_alarm)
-    signal.setitimer(signal.ITIMER_REAL, 0.5)
     try:
-        res: Optional[bool] = re.match(pattern, value) is not None
-    except (re.error, TimeoutError):
+        with c11.time_limit(0.5):
+            res: Optional[bool] = re.match(pattern, value) is not None
+    except (re.error, c11.TimeLimit):
         res = None
-    finally:
-        signal.setitimer(signal.ITIMER_REAL, 0)
-        signal.signal(signal.SIGALRM, old)
     _MATCH_CACHE[key] = res
     return res
 
@@ -364,6 +355,10 @@ def correspond(ctx: Ctx) -> None:
 
 def oracle(ctx: Ctx) -> None:
     c11.oracle(ctx)
+
+
+def search(ctx: Ctx) -> None:
+    c11.search(ctx)
 
 
 def replay(ctx: Ctx, data: Dict[str, Any]) -> Any:
